@@ -16,6 +16,8 @@ PAGESETS = {
     "rw+ro": [{"base": P0, "size": 0x1000, "perm": "rw"}, {"base": P1, "size": 0x1000, "perm": "ro"}],
     "rw+rw": [{"base": P0, "size": 0x1000, "perm": "rw"}, {"base": P1, "size": 0x1000, "perm": "rw"}],
     "ro+rw": [{"base": P0, "size": 0x1000, "perm": "ro"}, {"base": P1, "size": 0x1000, "perm": "rw"}],
+    "wo": [{"base": P0, "size": 0x1000, "perm": "wo"}],
+    "rw+wo": [{"base": P0, "size": 0x1000, "perm": "rw"}, {"base": P1, "size": 0x1000, "perm": "wo"}],
 }
 REPAIRED = PAGESETS["rw+rw"]
 
@@ -51,8 +53,12 @@ def gen_prog(rng, n=None, mem=True, patch=False, loop=None):
                 prog.append({"k": "ST", "a": rng.choice([P0, P0 + 2, P0 + 0xfff, P1, P1 + 1]), "v": rng.randrange(1, 200)})
             elif k < 0.65:
                 prog.append({"k": "ST4", "a": rng.choice([P0, P0 + 0xffc, P0 + 0xffe, P0 + 0xffd, P1]), "v": rng.randrange(1, 200)})
-            else:
+            elif k < 0.8:
                 prog.append({"k": "LD", "a": rng.choice([P0 + 1, P0 + 2, P0 + 0xfff, P1, P1 + 2])})
+            elif k < 0.9:
+                prog.append({"k": "PUM", "a": rng.choice([P0, P0 + 0xffc, P0 + 0xffe, P1, P1 + 4])})
+            else:
+                prog.append({"k": "INCM", "a": rng.choice([P0 + 1, P0 + 0xfff, P1, P1 + 1])})
         elif c < 0.9 and patch:
             prog.append({"k": "PATCH", "s": -1, "v": rng.randrange(1, 120)})
         else:
@@ -81,10 +87,10 @@ def gen_prog(rng, n=None, mem=True, patch=False, loop=None):
 def needs_fault(prog, pages, stackok):
     """does some memory instruction of the program touch a byte it may not access (reachable or not)?"""
     def writable(a):
-        return any(p["base"] <= a < p["base"] + p["size"] and p["perm"] == "rw" for p in pages)
+        return any(p["base"] <= a < p["base"] + p["size"] and p["perm"] in ("rw", "wo") for p in pages)
 
     def readable(a):
-        return any(p["base"] <= a < p["base"] + p["size"] for p in pages)
+        return any(p["base"] <= a < p["base"] + p["size"] and p["perm"] in ("rw", "ro") for p in pages)
     for x in prog:
         if x["k"] == "ST" and not writable(x["a"]):
             return True
@@ -93,6 +99,10 @@ def needs_fault(prog, pages, stackok):
         if x["k"] == "LD" and not readable(x["a"]):
             return True
         if x["k"] == "PU" and not stackok:
+            return True
+        if x["k"] == "PUM" and not (stackok and all(readable(x["a"] + k) for k in range(4))):
+            return True
+        if x["k"] == "INCM" and not (readable(x["a"]) and writable(x["a"])):
             return True
     return False
 
@@ -128,8 +138,8 @@ def _play(job):
     try:
         return _play1(job)
     except _Timeout:
-        return [{"stop": "crashed", "pc": -1, "acchi": 0, "acclo": 0, "cnt": 0, "stack": [], "window": [], "hits": [], "fault": False,
-                 "crashed": "did not finish within 60 s"}]
+        return [{"stop": "crashed", "pc": -1, "acchi": 0, "acclo": 0, "cnt": 0, "stack": [], "window": [], "hits": [], "fault": False, "below": "untouched",
+                 "below": "untouched", "crashed": "did not finish within 60 s"}]
     finally:
         signal.alarm(0)
 
@@ -141,11 +151,11 @@ def _play1(job):
                      cache_max=cfg.get("cache_max"))
         return p.play(script)
     except Exception as ex:
-        return [{"stop": "crashed", "pc": -1, "acchi": 0, "acclo": 0, "cnt": 0, "stack": [], "window": [], "hits": [], "fault": False,
+        return [{"stop": "crashed", "pc": -1, "acchi": 0, "acclo": 0, "cnt": 0, "stack": [], "window": [], "hits": [], "fault": False, "below": "untouched",
                  "crashed": "driver:" + type(ex).__name__ + ":" + str(ex)[:80]}]
 
 
-HANG = {"stop": "crashed", "pc": -1, "acchi": 0, "acclo": 0, "cnt": 0, "stack": [], "window": [], "hits": [], "fault": False,
+HANG = {"stop": "crashed", "pc": -1, "acchi": 0, "acclo": 0, "cnt": 0, "stack": [], "window": [], "hits": [], "fault": False, "below": "untouched",
         "crashed": "did not finish (the run loops inside the backend)"}
 
 
@@ -235,7 +245,7 @@ def judge_jobs(ctx, jobs, label):
     for (item, script, backend, cfg), o in zip(jobs, obs):
         it = dict(item)
         it["script"] = script
-        it["obs"] = o + [{"stop": "-", "pc": -9, "acchi": 0, "acclo": 0, "cnt": 0, "stack": [], "window": [], "hits": [], "fault": False,
+        it["obs"] = o + [{"stop": "-", "pc": -9, "acchi": 0, "acclo": 0, "cnt": 0, "stack": [], "window": [], "hits": [], "fault": False, "below": "untouched",
                           "crashed": "missing observation"}]
         items.append(it)
     verdicts = D.judge(ctx, items, label)
